@@ -73,6 +73,9 @@ def native_check(kind, N, B, negB, k, epochs=2, seed=0, use_sched=True, reinit=F
         kw.update(scheduler=Sched, scheduler_args={"step_size": 1, "gamma": 0.5})
     if bases is not None:
         kw["input_bases"] = bases
+    # a few idle callbacks (their number is unrelated to k): the update rule does not depend on who listens
+    from qucumber.callbacks import LambdaCallback
+    kw["callbacks"] = [LambdaCallback() for _ in range((seed + N) % 3 + (0 if k == 0 else 2 if k == 1 else 1))]
     st.fit(data, **kw)
     nb = math.ceil(N / B)
     if len(log["steps"]) != nb * epochs:
